@@ -476,6 +476,12 @@ func runC14(r *Run) {
 	if dz := r.fn(P, pkgCompression+"/gzip", "Algorithm.Decompress"); dz != nil {
 		r.requireSucc(P+".decompress.whole", "if this fails, a file that decompresses to more than limit × factor is cut to an acceptable prefix inside the decompressor and then accepted", dz, core.Ctx{}, "",
 			"cmp(<result> == io.ReadAll(compress/gzip.NewReader(_)))")
+		r.requireSucc(P+".decompress.errors", "if this fails, a stream that gzip reports as corrupt (bad header, bad checksum, truncated) is handed on as if it had been read completely", dz, core.Ctx{}, "",
+			"ok(compress/gzip.NewReader(_))", "ok(io.ReadAll(compress/gzip.NewReader(_)))")
+	}
+	if rd := r.fn(P, pkgCompression, "Registry.Decompress"); rd != nil {
+		r.requireSucc(P+".decompress.registry", "the registry must hand back what an algorithm that accepts the requested name produced, and only when that algorithm reported no error", rd, core.Ctx{}, "",
+			"true(Algorithm.Accept(?a, $1))", "ok(Algorithm.Decompress(?a, $2))", "cmp(<result> == Algorithm.Decompress(?a, $2))")
 	}
 	// E3: operators and roles of the file-size parameters
 	sinks, reads := r.protocolSinks()
